@@ -65,7 +65,7 @@ type World struct {
 	Root string // private scratch directory (removed by Destroy)
 	Dir  string // data directory
 	// DirSpell: how the caller spells the directory in Options.DirPath: 0 clean, 1 trailing separator, 2 trailing
-	// "/.", 3 a "/./" in the middle (all name the same directory)
+	// "/.", 3 a "/./" in the middle, 4 a symbolic link to it (all name the same directory)
 	DirSpell  int
 	lastValue []byte // the value of the last plain put (also when it failed)
 	// BackgroundMerge: Options.EnableBackgroundMerge (the engine's own timer-driven Merge goroutine)
@@ -117,6 +117,14 @@ func (w *World) spelledDir() string {
 		return w.Dir + sep + "."
 	case 3:
 		return filepath.Dir(w.Dir) + sep + "." + sep + filepath.Base(w.Dir)
+	case 4: // through a symbolic link next to the directory
+		link := filepath.Join(filepath.Dir(w.Dir), "dblink")
+		if st, err := os.Lstat(link); err != nil || st.Mode()&os.ModeSymlink == 0 {
+			os.RemoveAll(link) // (a materialised crash image holds whatever the snapshot made of the link)
+			os.MkdirAll(w.Dir, 0o755)
+			os.Symlink(w.Dir, link)
+		}
+		return link
 	}
 	return w.Dir
 }
